@@ -277,22 +277,13 @@ def case_equivariance(ctx, N, k, mirror=False):
     D = M2.mem2_directional_distribution(lam, inc, tw)
     Dr = M2.mem2_directional_distribution(lr, inc, tw)
     perm = [((-j) % N) if mirror else ((j - k) % N) for j in range(N)]
-    # inner products agree: lambda_rot . twiddle_j == lambda . twiddle_perm(j). They are built exactly as the code
-    # builds them (same accumulation order), so that the terms inside D / Dr can be replaced by fresh variables.
-    def inner(l):
-        acc = M2.np.zeros(N)
-        for jj in range(4):
-            acc = acc + l[jj] * tw[jj, :]
-        return acc
-    ip, ipr = inner(lam), inner(lr)
-    lemmas = []
+    # inner products agree: lambda_rot . twiddle_j == lambda . twiddle_perm(j)
     for j in range(N):
-        ok = ctx.check(ctx.eq(ipr[j], ip[perm[j]]), "D-EQV.inner", info=dict(j=j, N=N, k=k, mirror=mirror), timeout=60000)
-        if ok:
-            lemmas.append(ctx.eq(ipr[j], ip[perm[j]]))
+        ipr = lr[0] * tw[0, j] + lr[1] * tw[1, j] + lr[2] * tw[2, j] + lr[3] * tw[3, j]
+        ip = lam[0] * tw[0, perm[j]] + lam[1] * tw[1, perm[j]] + lam[2] * tw[2, perm[j]] + lam[3] * tw[3, perm[j]]
+        ctx.check(ctx.eq(ipr, ip), "D-EQV.inner", info=dict(j=j, N=N, k=k, mirror=mirror), timeout=60000)
     for j in range(N):
-        ctx.check(ctx.eq(Dr[j], D[perm[j]]), "D-EQV.distribution", info=dict(j=j), timeout=60000,
-                  abstract=list(ip) + list(ipr), lemmas=lemmas)
+        ctx.check(ctx.eq(Dr[j], D[perm[j]]), "D-EQV.distribution", info=dict(j=j), timeout=60000)
     ctx.reach("D-EQV.guess")
 
 
@@ -419,19 +410,19 @@ def cases(tier):
         cs.append(dict(name=name, fn=f"props.c06:{fn}", kwargs=kw, opts=opts or {}))
 
     for N in ([3, 4, 6] if q else [3, 4, 6, 8]):
-        add("case_jacobian", f"jac_N{N}", N=N, opts=dict(weight=N * 20, case_timeout_s=280 if q else 1800))
-    add("case_jacobian", "jac_symgrid_N3", N=3, symbolic_grid=True, opts=dict(weight=100, case_timeout_s=280 if q else 1800))
+        add("case_jacobian", f"jac_N{N}", N=N, opts=dict(weight=N * 20, case_timeout_s=900 if q else 1800))
+    add("case_jacobian", "jac_symgrid_N3", N=3, symbolic_grid=True, opts=dict(weight=100, case_timeout_s=900 if q else 1800))
     if not q:
         add("case_jacobian", "jac_symgrid_N4", N=4, symbolic_grid=True, opts=dict(weight=300, case_timeout_s=3000))
     add("case_cholesky", "cholesky_2", n=2, opts=dict(weight=20))
     # not registered because they end without a verdict (solver unknown / wall-clock limit, measured end-to-end in the
     # thorough tier): cholesky_3 (3x3 symbolic factorisation, > 1800 s), eqv_N6_k{2,4,5} and every eqv_N8 case (path
     # conditions mixing the multipliers with sqrt(3) / sqrt(2) atoms: z3 unknown after 60 s per claim)
-    for N in [4, 6]:
+    for N in ([4] if q else [4, 6]):     # N=6: thorough only (solver time varies from 20 s to minutes between runs)
         for k in range(1, N):
             if N == 6 and k in (2, 4, 5):
                 continue
-            add("case_equivariance", f"eqv_N{N}_k{k}", N=N, k=k, opts=dict(trig_mode="algebraic", weight=N * 5, case_timeout_s=280 if q else 2400))
+            add("case_equivariance", f"eqv_N{N}_k{k}", N=N, k=k, opts=dict(trig_mode="algebraic", weight=N * 5, case_timeout_s=900 if q else 2400))
         add("case_equivariance", f"eqv_N{N}_mirror", N=N, k=0, mirror=True, opts=dict(trig_mode="algebraic", weight=N * 5))
     add("case_newton_convergence_exit", "newton_converged_N4", N=4, opts=dict(weight=40))
     for m0 in (0.03, 0.05, 0.2):
